@@ -10,6 +10,7 @@ import (
 	"encoding/json"
 	"errors"
 	"fmt"
+	"reflect"
 	"sort"
 	"strings"
 
@@ -140,6 +141,38 @@ func pairsOf(ps []kv.Pair) []pairJ {
 	return out
 }
 
+func samePairs(a, b []pairJ) bool {
+	if len(a) != len(b) {
+		return false
+	}
+	for i := range a {
+		if a[i] != b[i] {
+			return false
+		}
+	}
+	return true
+}
+
+func sameStrings(a, b []string) bool {
+	if len(a) != len(b) {
+		return false
+	}
+	for i := range a {
+		if a[i] != b[i] {
+			return false
+		}
+	}
+	return true
+}
+
+// sameAnswer: two replicas answered identically (value, order, nil-ness of the error).
+func sameAnswer(a interface{}, aerr error, b interface{}, berr error) bool {
+	if (aerr == nil) != (berr == nil) || (aerr != nil && aerr.Error() != berr.Error()) {
+		return false
+	}
+	return reflect.DeepEqual(a, b)
+}
+
 func sortedCopy(s []string) []string {
 	out := append([]string{}, s...)
 	sort.Strings(out)
@@ -177,7 +210,7 @@ func judgeLookup(m *CAS, q query, got interface{}, gerr error) (why string, judg
 		}
 		if q.Kind == "getall" {
 			ps, isPs := got.([]kv.Pair)
-			if gerr != nil || !isPs || render(pairsOf(ps), nil) != render(exp, nil) {
+			if gerr != nil || !isPs || !samePairs(pairsOf(ps), exp) {
 				return fmt.Sprintf("expected %s, answer %s", render(exp, nil), render(got, gerr)), true
 			}
 			return "", true
@@ -188,7 +221,7 @@ func judgeLookup(m *CAS, q query, got interface{}, gerr error) (why string, judg
 		}
 		sort.Strings(vals)
 		vs, isVs := got.([]string)
-		if gerr != nil || !isVs || render(sortedCopy(vs), nil) != render(vals, nil) {
+		if gerr != nil || !isVs || !sameStrings(sortedCopy(vs), vals) {
 			return fmt.Sprintf("expected %s, answer %s", render(vals, nil), render(got, gerr)), true
 		}
 		return "", true
@@ -198,7 +231,7 @@ func judgeLookup(m *CAS, q query, got interface{}, gerr error) (why string, judg
 		}
 		exp := m.List(q.Arg, q.Kind == "listdir")
 		vs, isVs := got.([]string)
-		if gerr != nil || !isVs || render(sortedCopy(vs), nil) != render(exp, nil) {
+		if gerr != nil || !isVs || !sameStrings(sortedCopy(vs), exp) {
 			return fmt.Sprintf("expected %s, answer %s", render(exp, nil), render(got, gerr)), true
 		}
 		return "", true
@@ -236,6 +269,18 @@ func runSeq(r *ev.Run, id caseID) {
 	A := &replica{"original", kv.NewLFSM()(1, 1)}
 	B := &replica{"rebatched", kv.NewLFSM()(1, 2)}
 	w := witness1{Case: id, Pool: g.pool}
+	// counters are collected per case and flushed once (the evidence writer has one global lock)
+	lc, ld := map[string]int64{}, map[[2]string]struct{}{}
+	cnt := func(name string, n int64) { lc[name] += n }
+	dst := func(set, elem string) { ld[[2]string{set, elem}] = struct{}{} }
+	defer func() {
+		for k, v := range lc {
+			r.Count(k, v)
+		}
+		for k := range ld {
+			r.Distinct(k[0], k[1])
+		}
+	}()
 	fail := func(sig, at, what string) {
 		w.At = at
 		report(r, sig, what+" @ "+at, w)
@@ -320,9 +365,9 @@ func runSeq(r *ev.Run, id caseID) {
 				fail(v.Sig, at, v.What)
 				return
 			}
-			r.Count("updates", 1)
-			r.Count("update:"+class, 1)
-			r.Distinct("version_choices", o.How+"/"+class)
+			cnt("updates", 1)
+			cnt("update:"+class, 1)
+			dst("version_choices", o.How+"/"+class)
 			fmt.Fprintf(&sig, "%s|%s|%q|%d|%s;", o.Op, o.Key, o.Val, o.Ver, class)
 			switch class {
 			case "set-ok", "delete-ok":
@@ -403,8 +448,8 @@ func runSeq(r *ev.Run, id caseID) {
 				}
 			}
 			snapAtPoints = append(snapAtPoints, pend.at)
-			r.Count("snapshots", 1)
-			r.Count("snapshot_bytes", int64(buf.Len()))
+			cnt("snapshots", 1)
+			cnt("snapshot_bytes", int64(buf.Len()))
 			B = T
 			pend = nil
 		}
@@ -413,40 +458,40 @@ func runSeq(r *ev.Run, id caseID) {
 		for _, q := range stepQueries(g, m) {
 			gotA, errA := A.sm.Lookup(q.req())
 			gotB, errB := B.sm.Lookup(q.req())
-			at := fmt.Sprintf("after %d updates (index %d): %s", len(w.Ops), idx, q)
+			at := func() string { return fmt.Sprintf("after %d updates (index %d): %s", len(w.Ops), idx, q) }
 			why, judged := judgeLookup(m, q, gotA, errA)
 			if why != "" {
-				fail("lookup-"+q.Kind+":"+A.kind, at, why)
+				fail("lookup-"+q.Kind+":"+A.kind, at(), why)
 				return
 			}
 			if why, _ := judgeLookup(m, q, gotB, errB); why != "" {
-				fail("lookup-"+q.Kind+":"+B.kind, at, why)
+				fail("lookup-"+q.Kind+":"+B.kind, at(), why)
 				return
 			}
-			if ra, rb := render(gotA, errA), render(gotB, errB); ra != rb {
-				fail("replicas-disagree:"+q.Kind+":"+B.kind, at, fmt.Sprintf("original answered %s, %s replica answered %s", ra, B.kind, rb))
+			if !sameAnswer(gotA, errA, gotB, errB) {
+				fail("replicas-disagree:"+q.Kind+":"+B.kind, at(), fmt.Sprintf("original answered %s, %s replica answered %s", render(gotA, errA), B.kind, render(gotB, errB)))
 				return
 			}
-			r.Count("lookups", 2)
+			cnt("lookups", 2)
 			if judged {
-				r.Count("lookups_judged_by_model:"+q.Kind, 2)
+				cnt("lookups_judged_by_model:"+q.Kind, 2)
 			} else {
-				r.Count("lookups_replica_agreement_only:"+q.Kind, 2)
+				cnt("lookups_replica_agreement_only:"+q.Kind, 2)
 			}
 			if q.Tag != "" {
-				r.Distinct("pattern_kinds", q.Tag)
+				dst("pattern_kinds", q.Tag)
 				if q.Kind == "getall" && judged {
 					if ps, _ := gotA.([]kv.Pair); len(ps) > 0 {
-						r.Count("getall_nonempty_answers", 1)
+						cnt("getall_nonempty_answers", 1)
 						if q.Tag == "caller" {
-							r.Count("getall_nonempty_answers_caller_patterns", 1)
+							cnt("getall_nonempty_answers_caller_patterns", 1)
 						}
 					}
 				}
 			}
 			if (q.Kind == "list" || q.Kind == "listdir") && judged {
 				if vs, _ := gotA.([]string); len(vs) > 0 {
-					r.Count("list_nonempty_answers", 1)
+					cnt("list_nonempty_answers", 1)
 				}
 			}
 		}
